@@ -51,6 +51,7 @@ def make_plan(seed: int, tier: str) -> dict:
         cfg = fitsim.gen_fit_cfg(rng.stream("world"), max_iter=8 if tier == "quick" else 20)
         cfg["n_iter"] = st.choice([1, 1, 2, 3, cfg["n_iter"]])
         cfg["decisions"] = {k: v for k, v in cfg["decisions"].items() if int(k) <= cfg["n_iter"]}
+        cfg.pop("annealing", None)   # (n_iter was re-drawn: a tempered configuration is drawn afresh below so that it stays admissible)
         if st.bernoulli(0.3) and cfg["n_iter"] >= 4:
             cfg["annealing"] = {"do_annealing": True, "initial_temperature": st.choice([2, 10, 3.7]), "n_plateau": st.randint(2, 3),
                                 "n_iter_frac": st.choice([0.5, 0.9])}
